@@ -34,3 +34,47 @@ func (obj Undefined) Hierarchy() []Symbol {
 func (obj Undefined) Eval(s *Scope, depth int) Object {
 	panic(UndefinedFunctionNew(s, depth, obj, "Function %s is not defined.", obj))
 }
+
+// forward is the body given to the stand-in for a function that was called,
+// the call compiled, before it was defined when the definition that follows is
+// not a lambda, a generic function for one. It hands the arguments on.
+type forward struct {
+	fi *FuncInfo
+}
+
+// String representation of the Object.
+func (obj *forward) String() string {
+	return string(obj.Append([]byte{}))
+}
+
+// Append a buffer with a representation of the Object.
+func (obj *forward) Append(b []byte) []byte {
+	b = append(b, "#<forward "...)
+	b = append(b, obj.fi.Name...)
+	return append(b, '>')
+}
+
+// Simplify the Object into a string.
+func (obj *forward) Simplify() any {
+	return obj.String()
+}
+
+// Equal returns true if this Object and the other are equal in value.
+func (obj *forward) Equal(other Object) bool {
+	return obj == other
+}
+
+// Hierarchy returns the class hierarchy as symbols for the instance.
+func (obj *forward) Hierarchy() []Symbol {
+	return []Symbol{TrueSymbol}
+}
+
+// Eval calls the function with the arguments the stand-in was called with.
+func (obj *forward) Eval(s *Scope, depth int) Object {
+	args, _ := s.Get(Symbol("args")).(List)
+	f, ok := obj.fi.Create(nil).(Funky)
+	if !ok {
+		panic(UndefinedFunctionNew(s, depth, Symbol(obj.fi.Name), "Function %s is not defined.", obj.fi.Name))
+	}
+	return f.Apply(s, args, depth)
+}
